@@ -411,4 +411,8 @@ example : namesOK emptyWorld.model = true := by decide
 example (I : Interp Node) : PruneSound emptyWorld I := by
   intro o r rd _ h; simp [emptyWorld, Aux.get] at h
 
+/-- L6 repair (weighted engine): no read is issued when the user filter is empty (typed-wildcard subject on an
+edge that names concrete users). -/
+theorem tie_weighted_empty_filter : Gen.ListObjects.weightedSkipsEmptyUserFilter = true := by decide
+
 end OpenFGAVerif.C05
